@@ -31,6 +31,10 @@ def run(ctx):
   rule_other(ctx)
   rule_tree(ctx)
   rule_remainder(ctx)
+  # "a key is flagged exactly when ...", "all orderings": the entry recorded for a key carries the verdict computed for that key (shared with C16)
+  from . import c16
+  c16.rule_isolated(ctx, T.bodies(ctx.repo), "R-C03-OWN", lambda w: w.endswith(("CheckGCD.Check", "CheckGCDN1.Check")))
+  ctx.expect("R-C03-OWN", 2, "CheckGCD and CheckGCDN1")
   ctx.expect("R-C03-EMPTY", 3, "CheckGCD, CheckGCDN1, BatchGCD")
   ctx.expect("R-C03-VERDICT", 4, "two predicates + two recorded values")
   ctx.expect("R-C03-TREE", 7, "seven obligations of the product tree")
